@@ -94,16 +94,19 @@ Print Assumptions C16_polyeval_comptime_values_distinguish.
    distinct specialisations" holds iff no two raw values share a class; Lua's == puts 0.0 and -0.0 in one
    class (the defect repaired by cab9725; its witness is replayed by the polyc stream on every run). *)
 Definition C16_polyeval_distinct_values_full (cls : Z -> Z) : Prop := distinct_raw_values_distinct_specialisations cls.
-Theorem C16_value_comparison_must_separate_values :
+Theorem C16_value_comparison_separation_needed :
   forall cls, (exists r r', r <> r' /\ cls r = cls r') -> ~ C16_polyeval_distinct_values_full cls.
 Proof. exact lua_equal_values_share_refuted_lemma. Qed.
-Print Assumptions C16_value_comparison_must_separate_values.
+Print Assumptions C16_value_comparison_separation_needed.
 Theorem C16_polyeval_distinct_values_partial :
   forall cls, (forall r r', cls r = cls r' -> r = r') -> C16_polyeval_distinct_values_full cls.
 Proof. exact distinct_raw_values_lemma. Qed.
 Print Assumptions C16_polyeval_distinct_values_partial.
 
-(* MAIN: for the code as it is (since cab9725 poly_args_matches compares compile-time values through
+(* TRIPWIRE on the scraped flag (the value ids of the model are abstract: with the flag every raw id of the
+   replayer is its own class, and the statement is about the first two calls of a fresh function); the
+   content is in the scrape of poly_args_matches / same_comptime_value and in the polyc stream.
+   For the code as it is (since cab9725 poly_args_matches compares compile-time values through
    same_comptime_value, which tells 0.0 from -0.0; Gen.POLY_DISTINGUISHES_SIGNED_ZERO, checked by
    computation: on a revert this proof no longer checks) calls that differ in a raw compile-time value -
    the replayer's values, 0.0 and -0.0 included - get distinct specialisations *)
